@@ -66,6 +66,10 @@ type c07prog struct {
 	// errPending: the first request of this node is answered with an error and a handler channel on which
 	// the driver never sends anything: the token waits for the decision (flow.go, `<-res.handler`)
 	errPending string
+	// holdPoint: the goroutine that reaches this schedule point while a signal is being delivered is kept there, the
+	// context is cancelled, everybody else gets 30 ms to leave, then the goroutine is released (the cancellation lands
+	// INSIDE a hand-over between two goroutines); the cancellation point index is not used
+	holdPoint string
 }
 
 type c07case struct {
@@ -73,7 +77,17 @@ type c07case struct {
 	i       int
 	rep     int
 	perturb int
+	// hold: cancel while a goroutine stands at this schedule point (armed after the first driver action: the first
+	// goroutine to reach the point is kept there, the context is cancelled, everybody else gets 30 ms, it is released)
+	hold  string
+	armAt int // the driver step before which the hold is armed
 }
+
+// the schedule points of the engine at which a cancellation is placed by the hold sweep
+var c07holdPoints = []string{"flow.await", "flow.action", "harness.before_next_action", "catch.process_event",
+	"ebg.transformer.enter", "ebg.transformer.won", "ebg.transformer.before_notify", "inclusive.activity", "tracker.before_unlock",
+	"process.monitor.before_cease", "subprocess.monitor.before_subscribe", "subprocess.run.before_subscribe",
+	"tasktrace.process.forwarding", "tracer.broadcast"}
 
 func c07programs() []c07prog {
 	sig := func(name string) []eng.EventDef { return []eng.EventDef{{Kind: "signal", Name: name}} }
@@ -170,6 +184,34 @@ func c07programs() []c07prog {
 				g.Connect(t, e, nil)
 			}
 		}},
+		{name: "ebghold", pts: 0, signals: []string{"s1"}, holdPoint: "ebg.transformer.before_notify", build: func(g *eng.Graph) {
+			st := g.Add("startEvent", "start", "")
+			gw := g.Add("eventBasedGateway", "G", "")
+			g.Connect(st, gw, nil)
+			for k, s := range []string{"s1", "s2", "s3"} {
+				c := g.Add("intermediateCatchEvent", fmt.Sprintf("C%d", k+1), "")
+				c.Defs = sig(s)
+				t := g.Add("task", fmt.Sprintf("T%d", k+1), "")
+				e := g.Add("endEvent", fmt.Sprintf("end%d", k+1), "")
+				g.Connect(gw, c, nil)
+				g.Connect(c, t, nil)
+				g.Connect(t, e, nil)
+			}
+		}},
+		{name: "ebgwon", pts: 0, signals: []string{"s2"}, holdPoint: "ebg.transformer.won", build: func(g *eng.Graph) {
+			st := g.Add("startEvent", "start", "")
+			gw := g.Add("eventBasedGateway", "G", "")
+			g.Connect(st, gw, nil)
+			for k, s := range []string{"s1", "s2"} {
+				c := g.Add("intermediateCatchEvent", fmt.Sprintf("C%d", k+1), "")
+				c.Defs = sig(s)
+				t := g.Add("task", fmt.Sprintf("T%d", k+1), "")
+				e := g.Add("endEvent", fmt.Sprintf("end%d", k+1), "")
+				g.Connect(gw, c, nil)
+				g.Connect(c, t, nil)
+				g.Connect(t, e, nil)
+			}
+		}},
 		{name: "loop", pts: 37, vars: map[string]any{"c1": 0}, build: func(g *eng.Graph) {
 			g.Wrap(g.Loop("", g.Task("task", "L", "", "c1"), &eng.Cond{Op: "lt", Var: "c1", K: 2}))
 		}},
@@ -217,6 +259,16 @@ func c07cases(tier string) []c07case {
 		for r := 0; r < reps; r++ {
 			for i := 0; i <= p.pts; i++ {
 				cs = append(cs, c07case{prog: p, i: i, rep: r, perturb: r})
+			}
+		}
+		if p.holdPoint == "" && !p.host {
+			for k, pt := range c07holdPoints {
+				// cancellation "point" 1000+k: never reached by counting traces
+				cs = append(cs, c07case{prog: p, i: 1000 + k, hold: pt, armAt: 1})
+				if len(p.signals) > 0 || p.timer {
+					// programs driven by events: also from the very first driver action on
+					cs = append(cs, c07case{prog: p, i: 2000 + k, hold: pt, armAt: 0})
+				}
 			}
 		}
 	}
@@ -422,6 +474,9 @@ func c07run(out *rec.Out, c c07case, rng *rec.Rng, stats map[string]int) {
 	p := c.prog
 	out.Begin("c07", p.name, c.i, c.rep)
 	defer out.End()
+	if c.hold != "" {
+		out.Line("prog hold %s", c.hold)
+	}
 	stats["cases"]++
 	stats["prog_"+p.name]++
 	if os.Getenv("C07_FAULT") == "panic" { // self-test of c07guard
@@ -502,7 +557,7 @@ func c07run(out *rec.Out, c c07case, rng *rec.Rng, stats map[string]int) {
 		defer close(cntClosed)
 		for t := range cnt {
 			n := int(seen.Add(1))
-			if n == c.i {
+			if n == c.i && p.holdPoint == "" {
 				doCancel(n)
 			}
 			if _, ok := tracing.Unwrap(t).(bpmn.TaskTrace); ok && cancelled.Load() {
@@ -516,8 +571,29 @@ func c07run(out *rec.Out, c c07case, rng *rec.Rng, stats map[string]int) {
 	}()
 
 	startBlocked := false
-	if c.i == 0 {
+	if c.i == 0 && p.holdPoint == "" {
 		doCancel(0)
+	}
+	var hctl *sched.Controller
+	if p.holdPoint != "" || c.hold != "" {
+		hctl = sched.Install() // replaces a perturbing controller, if any
+		defer hctl.Remove()
+	}
+	holdArmed := false
+	armHold := func() {
+		if c.hold == "" || holdArmed {
+			return
+		}
+		holdArmed = true
+		arrived := hctl.Hold(c.hold)
+		go func() {
+			if sched.WaitArrived(arrived, 20*time.Second) && !cancelled.Load() {
+				stats["cancelled_at_"+c.hold]++
+				doCancel(int(seen.Load()))
+				time.Sleep(30 * time.Millisecond)
+			}
+			hctl.Release(c.hold)
+		}()
 	}
 	{
 		done := make(chan error, 1)
@@ -539,6 +615,9 @@ func c07run(out *rec.Out, c c07case, rng *rec.Rng, stats map[string]int) {
 	short := false
 	handlerPending := false
 	for steps := 0; steps < 200 && !cancelled.Load() && !startBlocked; steps++ {
+		if steps == c.armAt {
+			armHold()
+		}
 		if !in.Quiesce(3 * time.Second) {
 			if cancelled.Load() {
 				break
@@ -572,6 +651,18 @@ func c07run(out *rec.Out, c c07case, rng *rec.Rng, stats map[string]int) {
 			continue
 		}
 		if len(sigs) > 0 {
+			if hctl != nil {
+				arrived := hctl.Hold(p.holdPoint)
+				in.Deliver("signal", sigs[0], 2*time.Second)
+				sigs = sigs[1:]
+				if sched.WaitArrived(arrived, time.Second) {
+					stats["cancelled_inside_a_held_hand_over"]++
+					doCancel(int(seen.Load()))
+					time.Sleep(30 * time.Millisecond)
+				}
+				hctl.Release(p.holdPoint)
+				continue
+			}
 			in.Deliver("signal", sigs[0], 2*time.Second)
 			sigs = sigs[1:]
 			continue
